@@ -87,9 +87,14 @@ FIXED = [
 ]
 
 
-def run_worker(req, timeout=300):
-    p = subprocess.run([sys.executable, WORKER], input=json.dumps(req).encode('utf-8'), stdout=subprocess.PIPE,
-                       stderr=subprocess.PIPE, timeout=timeout)
+def run_worker(req, timeout=1500):
+    try:
+        p = subprocess.run([sys.executable, WORKER], input=json.dumps(req).encode('utf-8'), stdout=subprocess.PIPE,
+                           stderr=subprocess.PIPE, timeout=timeout)
+    except subprocess.TimeoutExpired:
+        raise TimeLimit()
+    if p.returncode == 3:
+        raise TimeLimit()
     if p.returncode != 0:
         raise RuntimeError('c12 worker failed: %s' % p.stderr.decode('utf-8', 'replace')[-800:])
     return json.loads(p.stdout.decode('utf-8'))
@@ -155,6 +160,11 @@ class C12(Check):
         return files
 
     def run(self, ctx):
+        try:
+            ctx.notes['repo_head'] = subprocess.run(['git', '-C', ctx.repo, 'rev-parse', '--short', 'HEAD'],
+                                                    stdout=subprocess.PIPE, timeout=20).stdout.decode().strip()
+        except Exception:       # noqa: B902
+            pass
         self.pool = concurrent.futures.ThreadPoolExecutor(max_workers=min(12, (os.cpu_count() or 4)))
         try:
             failed = []
@@ -198,7 +208,7 @@ class C12(Check):
     # -- engine correspondence ----------------------------------------------------------------------------
     def corr_engine(self, ctx):
         rng = ctx.sub_rng('engine')
-        n = ctx.n(5000, 120000)
+        n = ctx.n(5000, 300000)
         cases = []
         for i in range(n):
             cases.append(E.make_case(rng, discipline=(i % 3 != 0)))
@@ -284,7 +294,7 @@ class C12(Check):
     def corr_history(self, ctx):
         rng = ctx.sub_rng('history')
         base = self.base_profiles()
-        n_hist = ctx.n(24, 400)
+        n_hist = ctx.n(24, 600)
         hists = []
         for i in range(n_hist):
             ops = O.gen_modelled_history(rng, rng.randint(20, 60), n_base_profiles=len(base), indent_ok=(i % 3 == 0))
@@ -363,7 +373,7 @@ class C12(Check):
 
     def oracle_history(self, ctx):
         rng = ctx.sub_rng('oracle')
-        n_hist = ctx.n(24, 400)
+        n_hist = ctx.n(24, 600)
         hists = []
         for i in range(n_hist):
             ops = O.gen_oracle_history(rng, rng.randint(15, 45), explicit=(i % 2 == 0), indent=(i % 6 == 0))
